@@ -1,4 +1,6 @@
 import Acra.Gen.Src.PES
+import Acra.Gen.Src.Chapter11
+import Acra.Model.Ch11
 import Acra.Model.PES
 import Acra.Lemmas.SrcTie
 namespace Acra.Props.C15
@@ -37,5 +39,35 @@ theorem src_ts_to_pts_int (pts : Nat) :
   rw [or_field _ _ 1 15 (by decide) (Nat.mod_lt _ (by decide)),
     or_field _ _ 17 15 (by omega) (Nat.mod_lt _ (by decide)),
     or_field _ _ 33 3 (by omega) (Nat.mod_lt _ (by decide))]
+
+/-! `PTPTime` operators: `self` and the operand are `PTPTime` objects (the `isinstance` tests are true), their
+    attributes arbitrary Python ints; an object is the pair (seconds, nanoseconds). -/
+
+/-- `PTPTime.__sub__` as written today = the model, for all integer attribute values -/
+theorem src_PTPTime_sub (a b : Model.Ch11.IPTP) :
+    Gen.Src.Chapter11.PTPTime.__sub__ a.1 a.2 b.1 b.2 = Model.Ch11.ptpSub a b := by
+  unfold Gen.Src.Chapter11.PTPTime.__sub__ Model.Ch11.ptpSub
+  split <;> rfl
+
+/-- `PTPTime.__lt__` (Python tuple comparison) as written today = the model -/
+theorem src_PTPTime_lt (a b : Model.Ch11.IPTP) :
+    Gen.Src.Chapter11.PTPTime.__lt__ a.1 a.2 b.1 b.2 = Model.Ch11.ptpLt a b := by
+  unfold Gen.Src.Chapter11.PTPTime.__lt__ Model.Ch11.ptpLt
+  rw [Bool.eq_iff_iff]
+  simp [tupleLt]
+
+/-- `PTPTime.__le__` as written today = the model -/
+theorem src_PTPTime_le (a b : Model.Ch11.IPTP) :
+    Gen.Src.Chapter11.PTPTime.__le__ a.1 a.2 b.1 b.2 = Model.Ch11.ptpLe a b := by
+  unfold Gen.Src.Chapter11.PTPTime.__le__ Model.Ch11.ptpLe
+  rw [Bool.eq_iff_iff]
+  simp [tupleLe]
+  omega
+
+/-- `PTPTime.__eq__` as written today = the model -/
+theorem src_PTPTime_eq (a b : Model.Ch11.IPTP) :
+    Gen.Src.Chapter11.PTPTime.__eq__ a.1 a.2 b.1 b.2 = Model.Ch11.ptpEq a b := by
+  unfold Gen.Src.Chapter11.PTPTime.__eq__ Model.Ch11.ptpEq
+  by_cases h1 : a.2 = b.2 <;> by_cases h2 : a.1 = b.1 <;> simp [h1, h2]
 
 end Acra.Props.C15
